@@ -1,4 +1,358 @@
-// Plan minimisation (filled in later).
-pub fn main(_args: &[String]) -> i32 {
-	2
+// Plan minimisation: shrink the operation and fault sequence (drop steps, faults, certificates,
+// identifiers; shrink counts, latencies, knobs) while the SAME violation (property, kind, cause,
+// phase) persists, to a fixpoint under a time cap.  Labelled PRNG streams keep unrelated draws
+// stable when something is removed, so shrinking converges instead of stopping at the first
+// candidate that happens not to fail.
+use super::monitors;
+use super::plan::*;
+use super::run;
+use serde_json::json;
+use std::time::Instant;
+
+fn arg(args: &[String], name: &str) -> Option<String> {
+	args.iter().position(|a| a == name).and_then(|i| args.get(i + 1)).cloned()
+}
+
+fn fails(plan: &Plan, prop: &str, key: &str) -> bool {
+	let r = run::run_plan(plan);
+	let ok = r.harness_error.is_none() && monitors::check(prop, &r).violations.iter().any(|v| v.key() == key);
+	run::cleanup(&r);
+	ok
+}
+
+fn remove_cert(p: &Plan, i: usize) -> Option<Plan> {
+	if p.config.certificates.len() <= 1 {
+		return None;
+	}
+	let mut q = p.clone();
+	q.config.certificates.remove(i);
+	q.faults.retain(|f| f.cert != Some(i));
+	for f in q.faults.iter_mut() {
+		if let Some(c) = f.cert {
+			if c > i {
+				f.cert = Some(c - 1);
+			}
+		}
+	}
+	q.world.pre_files.retain(|f| !f.target.ends_with(&format!(":{}", i)));
+	for f in q.world.pre_files.iter_mut() {
+		if let Some(pos) = f.target.find(':') {
+			if let Ok(c) = f.target[pos + 1..].parse::<usize>() {
+				if c > i {
+					f.target = format!("{}:{}", &f.target[..pos], c - 1);
+				}
+			}
+		}
+	}
+	for op in q.ops.iter_mut() {
+		match op {
+			Op::Run { only, .. } => {
+				only.retain(|c| *c != i);
+				for c in only.iter_mut() {
+					if *c > i {
+						*c -= 1;
+					}
+				}
+			}
+			Op::RemoveFile { cert, .. } => {
+				if *cert == i {
+					*cert = usize::MAX;
+				} else if *cert > i {
+					*cert -= 1;
+				}
+			}
+			_ => {}
+		}
+	}
+	q.ops.retain(|op| !matches!(op, Op::RemoveFile { cert, .. } if *cert == usize::MAX));
+	Some(q)
+}
+
+fn candidates(p: &Plan) -> Vec<Plan> {
+	let mut out = vec![];
+	// drop operations (keep at least one)
+	if p.ops.len() > 1 {
+		for i in 0..p.ops.len() {
+			let mut q = p.clone();
+			q.ops.remove(i);
+			out.push(q);
+		}
+	}
+	// drop faults
+	for i in 0..p.faults.len() {
+		let mut q = p.clone();
+		q.faults.remove(i);
+		out.push(q);
+	}
+	// drop certificates
+	for i in 0..p.config.certificates.len() {
+		if let Some(q) = remove_cert(p, i) {
+			out.push(q);
+		}
+	}
+	// drop identifiers
+	for (ci, c) in p.config.certificates.iter().enumerate() {
+		if c.identifiers.len() > 1 {
+			for ii in 0..c.identifiers.len() {
+				let mut q = p.clone();
+				q.config.certificates[ci].identifiers.remove(ii);
+				out.push(q);
+			}
+		}
+	}
+	// shrink faults
+	for (i, f) in p.faults.iter().enumerate() {
+		if f.count > 1 {
+			for c in [1, f.count / 2, f.count - 1].iter() {
+				if *c >= 1 && *c < f.count {
+					let mut q = p.clone();
+					q.faults[i].count = *c;
+					out.push(q);
+				}
+			}
+		}
+		if f.nth > 1 {
+			let mut q = p.clone();
+			q.faults[i].nth = 1;
+			out.push(q);
+			let mut q = p.clone();
+			q.faults[i].nth = f.nth - 1;
+			out.push(q);
+		}
+	}
+	// shrink runs
+	for (i, op) in p.ops.iter().enumerate() {
+		match op {
+			Op::Run { attempts, max_virtual_s, only } => {
+				if *attempts > 1 {
+					for a in [1, attempts / 2, attempts - 1].iter() {
+						if *a >= 1 && a < attempts {
+							let mut q = p.clone();
+							q.ops[i] = Op::Run { attempts: *a, max_virtual_s: *max_virtual_s, only: only.clone() };
+							out.push(q);
+						}
+					}
+				}
+				if *max_virtual_s > 600 {
+					let mut q = p.clone();
+					q.ops[i] = Op::Run { attempts: *attempts, max_virtual_s: max_virtual_s / 4, only: only.clone() };
+					out.push(q);
+				}
+			}
+			Op::RunFor { virtual_s } if *virtual_s > 60 => {
+				let mut q = p.clone();
+				q.ops[i] = Op::RunFor { virtual_s: virtual_s / 2 };
+				out.push(q);
+			}
+			Op::CrashAt { kind, nth, max_virtual_s } if *nth > 1 => {
+				let mut q = p.clone();
+				q.ops[i] = Op::CrashAt { kind: kind.clone(), nth: nth - 1, max_virtual_s: *max_virtual_s };
+				out.push(q);
+			}
+			Op::Edit { patch } if patch.len() > 1 => {
+				for k in 0..patch.len() {
+					let mut pp = patch.clone();
+					pp.remove(k);
+					let mut q = p.clone();
+					q.ops[i] = Op::Edit { patch: pp };
+					out.push(q);
+				}
+			}
+			_ => {}
+		}
+	}
+	// simpler schedule
+	let d = Sched::default();
+	if p.sched.net_us != (100, 100) {
+		let mut q = p.clone();
+		q.sched.net_us = (100, 100);
+		out.push(q);
+	}
+	if p.sched.fs_us != (1, 1) {
+		let mut q = p.clone();
+		q.sched.fs_us = (1, 1);
+		out.push(q);
+	}
+	if p.sched.proc_ms != (1, 1) {
+		let mut q = p.clone();
+		q.sched.proc_ms = (1, 1);
+		out.push(q);
+	}
+	if p.sched.zero_yield {
+		let mut q = p.clone();
+		q.sched.zero_yield = false;
+		out.push(q);
+	}
+	if p.sched.lock_starved {
+		let mut q = p.clone();
+		q.sched.lock_starved = false;
+		out.push(q);
+	}
+	if p.sched.chunk != d.chunk {
+		let mut q = p.clone();
+		q.sched.chunk = d.chunk;
+		out.push(q);
+	}
+	if p.sched.map_salt != 0 {
+		let mut q = p.clone();
+		q.sched.map_salt = 0;
+		out.push(q);
+	}
+	if p.sched.jitter != "seeded" {
+		let mut q = p.clone();
+		q.sched.jitter = "seeded".into();
+		out.push(q);
+	}
+	// CA knobs back to default, whole then field by field
+	for (i, c) in p.cas.iter().enumerate() {
+		let dv = serde_json::to_value(Knobs::default()).unwrap();
+		let cv = serde_json::to_value(&c.knobs).unwrap();
+		if cv != dv {
+			let mut q = p.clone();
+			q.cas[i].knobs = Knobs::default();
+			out.push(q);
+			if let (Some(co), Some(dobj)) = (cv.as_object(), dv.as_object()) {
+				for (k, v) in co.iter() {
+					if dobj.get(k) != Some(v) {
+						let mut nv = cv.clone();
+						match dobj.get(k) {
+							Some(x) => nv[k] = x.clone(),
+							None => {
+								nv.as_object_mut().unwrap().remove(k);
+							}
+						}
+						if let Ok(kn) = serde_json::from_value::<Knobs>(nv) {
+							let mut q = p.clone();
+							q.cas[i].knobs = kn;
+							out.push(q);
+						}
+					}
+				}
+			}
+		}
+	}
+	// configuration simplifications
+	if !p.world.pre_files.is_empty() {
+		let mut q = p.clone();
+		q.world.pre_files.clear();
+		out.push(q);
+	}
+	if !p.config.rate_limits.is_empty() {
+		let mut q = p.clone();
+		q.config.rate_limits.clear();
+		for e in q.config.endpoints.iter_mut() {
+			e.rate_limits.clear();
+		}
+		out.push(q);
+	}
+	if !p.config.global.env.is_empty() || p.config.certificates.iter().any(|c| !c.env.is_empty()) {
+		let mut q = p.clone();
+		q.config.global.env.clear();
+		for c in q.config.certificates.iter_mut() {
+			c.env.clear();
+			for i in c.identifiers.iter_mut() {
+				i.env.clear();
+			}
+		}
+		out.push(q);
+	}
+	for (i, h) in p.config.hooks.iter().enumerate() {
+		if !h.exits.is_empty() {
+			let mut q = p.clone();
+			q.config.hooks[i].exits.clear();
+			out.push(q);
+		}
+	}
+	for (i, c) in p.config.certificates.iter().enumerate() {
+		if c.key_type.as_deref() != Some("ecdsa-p256") && p.world.pre_files.is_empty() {
+			let mut q = p.clone();
+			q.config.certificates[i].key_type = Some("ecdsa-p256".into());
+			out.push(q);
+		}
+		if !c.subject_attributes.is_empty() {
+			let mut q = p.clone();
+			q.config.certificates[i].subject_attributes.clear();
+			out.push(q);
+		}
+		if c.renew_delay.is_some() || c.random_early_renew.is_some() {
+			let mut q = p.clone();
+			q.config.certificates[i].renew_delay = None;
+			q.config.certificates[i].random_early_renew = None;
+			out.push(q);
+		}
+	}
+	for (i, a) in p.config.accounts.iter().enumerate() {
+		if a.key_type.as_deref() != Some("ecdsa-p256") {
+			let mut q = p.clone();
+			q.config.accounts[i].key_type = Some("ecdsa-p256".into());
+			out.push(q);
+		}
+	}
+	out
+}
+
+pub fn minimise(plan: &Plan, prop: &str, key: &str, budget_s: u64) -> (Plan, u32, u32) {
+	let t0 = Instant::now();
+	let mut cur = plan.clone();
+	let mut accepted = 0;
+	let mut tried = 0;
+	'outer: loop {
+		let cands = candidates(&cur);
+		for c in cands {
+			if t0.elapsed().as_secs() >= budget_s {
+				break 'outer;
+			}
+			tried += 1;
+			if fails(&c, prop, key) {
+				cur = c;
+				accepted += 1;
+				continue 'outer;
+			}
+		}
+		break;
+	}
+	(cur, accepted, tried)
+}
+
+pub fn main(args: &[String]) -> i32 {
+	let path = match arg(args, "--plan") {
+		Some(p) => p,
+		None => return 2,
+	};
+	let out = match arg(args, "--out") {
+		Some(p) => p,
+		None => return 2,
+	};
+	let prop = arg(args, "--props").unwrap_or_default();
+	let key = arg(args, "--key").unwrap_or_default();
+	let budget: u64 = arg(args, "--budget").and_then(|s| s.parse().ok()).unwrap_or(60);
+	let plan = match super::worker::load_plan(&path) {
+		Ok(p) => p,
+		Err(e) => {
+			eprintln!("{}", e);
+			return 2;
+		}
+	};
+	if !fails(&plan, &prop, &key) {
+		eprintln!("shrink: the plan does not show violation {} (nondeterminism?)", key);
+		return 2;
+	}
+	let (min, accepted, tried) = minimise(&plan, &prop, &key, budget);
+	// the violation record as produced by the minimal plan
+	let r = run::run_plan(&min);
+	let v = monitors::check(&prop, &r).violations.into_iter().find(|v| v.key() == key);
+	run::cleanup(&r);
+	let _ = std::fs::remove_dir_all(run::scratch_base());
+	let doc = json!({
+		"plan": min,
+		"violation": v,
+		"minimised": true,
+		"shrink": {"accepted_steps": accepted, "candidates_tried": tried,
+			"from": {"ops": plan.ops.len(), "faults": plan.faults.len(), "certificates": plan.config.certificates.len()},
+			"to": {"ops": min.ops.len(), "faults": min.faults.len(), "certificates": min.config.certificates.len()}},
+	});
+	if std::fs::write(&out, serde_json::to_string_pretty(&doc).unwrap()).is_err() {
+		return 2;
+	}
+	0
 }
